@@ -9,6 +9,15 @@ COMMON_TRUSTED = [
 ]
 
 PROPS = {
+    "C13": dict(
+        props_files=["Avfs/Props/C13.lean"],
+        tags="verif,avfs_setostype",
+        parts=[dict(name="path")],
+        trusted=["modelled, not verified: strings.EqualFold as ASCII case folding (generator alphabet has no other cased runes); utf8.DecodeRuneInString re-implemented in Lean and compared on every run",
+                 "oracle: the toolchain's path/filepath on the Linux host (Linux); for Windows there is no oracle in this run: impl ≟ model only"],
+        assumptions=["string lengths far below 2^31", "SplitAbs is only required to work on absolute paths (its documented precondition)"],
+        not_yet_proved=["clean_eq_spec (in progress)", "match_eq_spec", "rel_join", "Windows: theorems beyond length/inverse laws (executable model + correspondence only)"],
+    ),
     "C15": dict(
         props_files=["Avfs/Props/C15.lean"],
         parts=[dict(name="idm")],
